@@ -23,12 +23,19 @@ def run(prop, tier, seed, work, ev):
     run_driver(drv, ["run", "laws"], c, obs, env={"EVAL_DOCS": c + ".docs"})
     stats, rej = judge("tv/TV_Laws.tla", None, obs, work)
     ev.add_judged("laws on enumerated parts x documents", stats, rej, obs, nsamples=3)
+    # composites whose parts interact only if evaluation is NOT compositional (a `!` over a parenthesised group, an inner projection
+    # over a per-element temporary): judged against Eval, which is compositional by construction (MC_Eval_laws)
+    import eng_eval
+    rej = rej + eng_eval.pool_families(["bool", "inflate"], work, ev, drv)
     return rej
 
 
 def replay(prop, path, work):
     drv = build_driver()
     rec = json.load(open(path))["record"]
+    if rec.get("e") == "eval":
+        import eng_eval
+        return eng_eval.replay(prop, path, work)
     rec.pop("d", None)
     cases = work.path("c")
     with open(cases, "w") as f:
